@@ -541,12 +541,15 @@ class BaseName:
         if not self._name.is_value_name:
             return ''
 
-        lines = self._name.get_root_context().code_lines
-        if lines is None:
-            # Probably a builtin module, just ignore in that case.
+        # Namespace contexts have no code lines at all.
+        lines = getattr(self._name.get_root_context(), 'code_lines', None)
+        start_pos = self._name.start_pos
+        if lines is None or start_pos is None:
+            # Probably a builtin module or a name without a position in a
+            # file, just ignore in that case.
             return ''
 
-        index = self._name.start_pos[0] - 1
+        index = start_pos[0] - 1
         start_index = max(index - before, 0)
         return ''.join(lines[start_index:index + after + 1])
 
